@@ -3,12 +3,18 @@ import Selene.Lua.Rename
 namespace Selene.Scope.RenameProof
 set_option linter.unusedSectionVars false
 open Selene.Lua Selene.Scope.Spec Selene.Scope.Ordered
+open Selene.Scope.Core (Ans)
 
-/-- a renaming of identifiers that can be undone and leaves the two names the language itself introduces alone -/
+variable [Core.NameFilter]
+
+/-- a renaming of identifiers that can be undone, leaves the two names the language itself introduces
+    alone, and does not move a name into or out of the set the name filter keeps (the property's "does
+    not match an ignore pattern before or after") -/
 structure Renaming (ρ : String → String) : Prop where
   inj : ∀ a b, ρ a = ρ b → a = b
   dots : ρ "..." = "..."
   self : ρ "self" = "self"
+  keep : ∀ n, Core.NameFilter.keep (ρ n) = Core.NameFilter.keep n
 
 def renEnv (ρ : String → String) (env : Env) : Env := env.map fun e => (ρ e.1, e.2)
 
@@ -63,6 +69,34 @@ theorem bindParams_ren (ps : List Param) (env : Env) :
       congr 1
       show (ρ "...", _) :: renEnv ρ env = _
       rw [hρ.dots]; rfl
+
+theorem sDecl_ren (env : Env) (t : Tok) (name : String) :
+    sDecl (renEnv ρ env) (t.ren ρ) (ρ name) = sDecl env t name := by
+  simp only [sDecl, Tok.ren, look_ren hρ, hρ.keep]
+
+theorem sDeclAll_ren (k : DeclKind) (names : List Tok) (env : Env) :
+    sDeclAll (renEnv ρ env) k (names.map (Tok.ren ρ)) = sDeclAll env k names := by
+  induction names generalizing env with
+  | nil => rfl
+  | cons t rest ih =>
+    simp only [sDeclAll, List.map_cons]
+    rw [show (t.ren ρ).text = ρ t.text from rfl, sDecl_ren hρ, ← bindTok_ren hρ, ih]
+
+theorem sDeclParams_ren (ps : List Param) (env : Env) :
+    sDeclParams (renEnv ρ env) (ps.map (Param.ren ρ)) = sDeclParams env ps := by
+  induction ps generalizing env with
+  | nil => rfl
+  | cons p rest ih =>
+    cases p with
+    | name t =>
+      simp only [sDeclParams, List.map_cons, Param.ren]
+      rw [show (t.ren ρ).text = ρ t.text from rfl, sDecl_ren hρ, ← bindTok_ren hρ, ih]
+    | dots t =>
+      simp only [sDeclParams, List.map_cons, Param.ren]
+      have : bindTok (renEnv ρ env) t "..." .varargParam = renEnv ρ (bindTok env t "..." .varargParam) := by
+        show _ = (ρ "...", _) :: renEnv ρ env
+        rw [hρ.dots]; rfl
+      rw [this, ih]
 
 omit hρ in
 theorem hasDots_ren (ps : List Param) : hasDots (ps.map (Param.ren ρ)) = hasDots ps := by
@@ -271,28 +305,32 @@ theorem sBody_ren (env : Env) (selfTok : Option Tok) (body : FuncBody) :
   cases body with
   | mk sp params b =>
     have key : ∀ env₀ : Env,
-        (sBlock true (bindParams (if hasDots (params.map (Param.ren ρ)) then renEnv ρ env₀ else ("...", none) :: renEnv ρ env₀)
-          (params.map (Param.ren ρ))) (b.ren ρ)).1 =
-        (sBlock true (bindParams (if hasDots params then env₀ else ("...", none) :: env₀) params) b).1 := by
+        sDeclParams (("...", none) :: renEnv ρ env₀) (params.map (Param.ren ρ)) ++
+        (sBlock true (bindParams (("...", none) :: renEnv ρ env₀) (params.map (Param.ren ρ))) (b.ren ρ)).1 =
+        sDeclParams (("...", none) :: env₀) params ++
+        (sBlock true (bindParams (("...", none) :: env₀) params) b).1 := by
       intro env₀
-      have hb : (if hasDots (params.map (Param.ren ρ)) then renEnv ρ env₀ else ("...", none) :: renEnv ρ env₀) =
-          renEnv ρ (if hasDots params then env₀ else ("...", none) :: env₀) := by
-        rw [hasDots_ren]
-        split
-        · rfl
-        · show _ = (ρ "...", none) :: renEnv ρ env₀
-          rw [hρ.dots]
-      rw [hb, ← bindParams_ren hρ]
-      exact (sBlock_ren true _ b).1
+      have hb : (("...", none) :: renEnv ρ env₀ : Env) = renEnv ρ (("...", none) :: env₀) := by
+        show _ = (ρ "...", none) :: renEnv ρ env₀
+        rw [hρ.dots]
+      rw [hb, ← bindParams_ren hρ, sDeclParams_ren hρ]
+      rw [(sBlock_ren true _ b).1]
     cases selfTok with
-    | none => exact key env
+    | none =>
+      show [] ++ _ ++ _ = [] ++ _ ++ _
+      simpa using key env
     | some m =>
       have := key (bindTok env m "self" .self_)
       have e : renEnv ρ (bindTok env m "self" .self_) = bindTok (renEnv ρ env) m "self" .self_ := by
         show (ρ "self", _) :: renEnv ρ env = _
         rw [hρ.self]; rfl
       rw [e] at this
-      exact this
+      have hd : sDecl (renEnv ρ env) m "self" = sDecl env m "self" := by
+        have := sDecl_ren hρ env m "self"
+        rw [hρ.self] at this
+        exact this
+      show sDecl (renEnv ρ env) m "self" ++ _ ++ _ = sDecl env m "self" ++ _ ++ _
+      rw [hd, List.append_assoc, List.append_assoc, this]
 theorem sBlock_ren (inF : Bool) (env : Env) (b : Block) :
     (sBlock inF (renEnv ρ env) (b.ren ρ)).1 = (sBlock inF env b).1 ∧
     (sBlock inF (renEnv ρ env) (b.ren ρ)).2 = renEnv ρ (sBlock inF env b).2 := by
@@ -343,8 +381,10 @@ theorem sStmt_ren (inF : Bool) (env : Env) (s : Stmt) :
     rw [sTargets_ren hρ, dVs_ren inF env vars, dEs_ren inF env es]
   | localAssign sp names es =>
     refine ⟨?_, (bindAll_ren hρ .local_ names env).symm⟩
-    show eEs inF (renEnv ρ env) (es.ren ρ) ++ dEs inF (renEnv ρ env) (es.ren ρ) = eEs inF env es ++ dEs inF env es
-    rw [eEs_ren hρ, dEs_ren inF env es]
+    show eEs inF (renEnv ρ env) (es.ren ρ) ++ dEs inF (renEnv ρ env) (es.ren ρ) ++
+        sDeclAll (renEnv ρ env) .local_ (names.map (Tok.ren ρ)) =
+      eEs inF env es ++ dEs inF env es ++ sDeclAll env .local_ names
+    rw [eEs_ren hρ, dEs_ren inF env es, sDeclAll_ren hρ]
   | call c =>
     cases c with
     | mk sp p ss =>
@@ -386,27 +426,30 @@ theorem sStmt_ren (inF : Bool) (env : Env) (s : Stmt) :
     | none =>
       show eE inF (renEnv ρ env) (start.ren ρ) ++ eE inF (renEnv ρ env) (stop.ren ρ) ++ [] ++
           dE inF (renEnv ρ env) (start.ren ρ) ++ dE inF (renEnv ρ env) (stop.ren ρ) ++ [] ++
+          sDecl (renEnv ρ env) (v.ren ρ) (v.ren ρ).text ++
           (sBlock inF (bindTok (renEnv ρ env) (v.ren ρ) (v.ren ρ).text .loopVar) (b.ren ρ)).1 =
         eE inF env start ++ eE inF env stop ++ [] ++ dE inF env start ++ dE inF env stop ++ [] ++
-          (sBlock inF (bindTok env v v.text .loopVar) b).1
+          sDecl env v v.text ++ (sBlock inF (bindTok env v v.text .loopVar) b).1
       rw [eE_ren hρ, eE_ren hρ, dE_ren inF env start, dE_ren inF env stop]
-      rw [show (v.ren ρ).text = ρ v.text from rfl, hb]
+      rw [show (v.ren ρ).text = ρ v.text from rfl, hb, sDecl_ren hρ]
     | some st =>
       show eE inF (renEnv ρ env) (start.ren ρ) ++ eE inF (renEnv ρ env) (stop.ren ρ) ++ eE inF (renEnv ρ env) (st.ren ρ) ++
           dE inF (renEnv ρ env) (start.ren ρ) ++ dE inF (renEnv ρ env) (stop.ren ρ) ++ dE inF (renEnv ρ env) (st.ren ρ) ++
+          sDecl (renEnv ρ env) (v.ren ρ) (v.ren ρ).text ++
           (sBlock inF (bindTok (renEnv ρ env) (v.ren ρ) (v.ren ρ).text .loopVar) (b.ren ρ)).1 =
         eE inF env start ++ eE inF env stop ++ eE inF env st ++ dE inF env start ++ dE inF env stop ++ dE inF env st ++
-          (sBlock inF (bindTok env v v.text .loopVar) b).1
+          sDecl env v v.text ++ (sBlock inF (bindTok env v v.text .loopVar) b).1
       rw [eE_ren hρ, eE_ren hρ, eE_ren hρ, dE_ren inF env start, dE_ren inF env stop, dE_ren inF env st]
-      rw [show (v.ren ρ).text = ρ v.text from rfl, hb]
+      rw [show (v.ren ρ).text = ρ v.text from rfl, hb, sDecl_ren hρ]
   | genFor sp names es b =>
     refine ⟨?_, rfl⟩
     have hb := (sBlock_ren inF (bindAll env .loopVar names) b).1
     rw [bindAll_ren hρ] at hb
     show eEs inF (renEnv ρ env) (es.ren ρ) ++ dEs inF (renEnv ρ env) (es.ren ρ) ++
+        sDeclAll (renEnv ρ env) .loopVar (names.map (Tok.ren ρ)) ++
         (sBlock inF (bindAll (renEnv ρ env) .loopVar (names.map (Tok.ren ρ))) (b.ren ρ)).1 =
-      eEs inF env es ++ dEs inF env es ++ (sBlock inF (bindAll env .loopVar names) b).1
-    rw [eEs_ren hρ, dEs_ren inF env es, hb]
+      eEs inF env es ++ dEs inF env es ++ sDeclAll env .loopVar names ++ (sBlock inF (bindAll env .loopVar names) b).1
+    rw [eEs_ren hρ, dEs_ren inF env es, hb, sDeclAll_ren hρ]
   | func sp name body =>
     obtain ⟨nsp, names, method⟩ := name
     cases names with
@@ -419,11 +462,12 @@ theorem sStmt_ren (inF : Bool) (env : Env) (s : Stmt) :
       rw [sRead_ren hρ, sBody_ren env method body]
   | localFunc sp name body =>
     refine ⟨?_, ?_⟩
-    · show sBody (bindTok (renEnv ρ env) (name.ren ρ) (name.ren ρ).text .localFunc) none (body.ren ρ) =
-        sBody (bindTok env name name.text .localFunc) none body
+    · show sDecl (renEnv ρ env) (name.ren ρ) (name.ren ρ).text ++
+          sBody (bindTok (renEnv ρ env) (name.ren ρ) (name.ren ρ).text .localFunc) none (body.ren ρ) =
+        sDecl env name name.text ++ sBody (bindTok env name name.text .localFunc) none body
       have := sBody_ren (bindTok env name name.text .localFunc) none body
       rw [bindTok_ren hρ] at this
-      exact this
+      rw [show (name.ren ρ).text = ρ name.text from rfl, sDecl_ren hρ, this]
     · exact (bindTok_ren hρ env name name.text .localFunc).symm
   | unsupported _ => exact ⟨rfl, rfl⟩
 end
